@@ -90,6 +90,62 @@ CHECKS = {
   "design_ref": "DESIGN.md §5 C12, §6 F2", "note": _INJ_NOTE + "Kernel mark list is observed, not modelled; K0-K3, K6.",
   "technique": "Lean 4 invariant proof over all operation sequences + differential correspondence + fdinfo-vs-tables monitor on the real kernel",
  },
+ "C05": {
+  "text": "Theorems over a finite protocol model of the reader goroutine, an API call (Add/Remove/WatchList or Close), "
+          "arbitrary other goroutines (abstracted to what they can do to mu/done/the file), the kernel and the consumer, for "
+          "every Events capacity: in EVERY reachable state a pending control call returns after finitely many system steps "
+          "with NO consumer step (explicit strategy; the table over all 5632 invariant-compatible states is evaluated by "
+          "the Lean kernel and lifted through the inductive invariant); the reader never holds mu in a send it cannot leave; "
+          "Close is idempotent. The pre-repair protocol (F1) is shown to have a reachable state from which no system-only "
+          "run returns. Tie T: the regenerated lock/send/close skeleton of all 17 protocol functions, and the list of sends "
+          "that can run under mu, equal the reviewed expectation the model was written against. Tie D: genuine-mode "
+          "scenarios under a watchdog. Partial: scheduler fairness, mutex starvation-freedom, poller behaviour are assumptions.",
+  "design_ref": "DESIGN.md §5 C05", "note": "Trusted: Lean kernel incl. decide +kernel evaluation of finite tables; the abstraction of "
+          "capacities/other goroutines in Model/Proto; tools/gotolean's skeleton extractor; the Go runtime assumptions above.",
+  "technique": "Lean 4: inductive invariant + kernel-evaluated progress table over a finite protocol model; regenerated concurrency skeleton (translator tie); watchdog scenarios",
+ },
+ "C06": {
+  "text": "Theorems over the same protocol model: no send is ever enabled on a closed channel (the only closer of Events/"
+          "Errors/doneResp is the reader's exit, after its last send: regenerated closers/senders/go facts); once the watcher "
+          "is marked closed and its file closed, system steps alone reach reader-exited with all three channels closed, for "
+          "any consumer behaviour; after the exit no step sends anything; calls that start after the mark return from the "
+          "isClosed test (ErrClosed / nil / nil: return expressions pinned by the regenerated skeleton). Tie D: Close at idle, "
+          "mid-burst, during a blocked send, with pending error/overflow, concurrent Closes and racing Add, all consumer "
+          "behaviours; channel closure, inert API and absence of late values checked on the running code.",
+  "design_ref": "DESIGN.md §5 C06", "note": "As C05.",
+  "technique": "Lean 4 safety invariant + progress over the finite protocol model; regenerated skeleton facts; genuine-mode scenarios",
+ },
+ "C07": {
+  "text": "Theorems: in every reachable protocol state at most one thread is inside a critical section of mu (table accesses "
+          "never overlap; each call takes effect atomically at its section, whose sequential semantics is the model proved "
+          "consistent in C04/C12); a critical section runs only while the descriptor is open and the watcher not marked "
+          "closed (no syscall on a closed fd: F6 repaired; the pre-repair interleaving is exhibited); regenerated lock facts: "
+          "every access to the watch tables happens under mu, to the cookie ring under cookiesMu. Tie D: recorded concurrent "
+          "histories checked for linearizability against the set spec (porcupine), calls racing Close. Partial: data-race "
+          "freedom of the binary is evidenced (lock facts, optional -race build), not proved.",
+  "design_ref": "DESIGN.md §5 C07, §6 F6", "note": "As C05; the lock-fact extractor is lexical and conservative.",
+  "technique": "Lean 4 mutual-exclusion invariant over the protocol model + regenerated lock facts + linearizability checking of recorded histories",
+ },
+ "C13": {
+  "text": "Theorems over the protocol model: from every reachable state in which the watcher is marked closed and its file "
+          "closed, system steps alone reach: reader exited, descriptor closed (kernel watches go with it: K6), all channels "
+          "closed; that state is stable; the Close that does the work returns only after doneResp is closed; newBackend's "
+          "error return precedes every allocation and the go statement (regenerated skeleton). Tie D: descriptor and reader-"
+          "goroutine counts around create/use/close cycles (pending events, concurrent Close, Close racing Add) and around "
+          "NewWatcher failures at the per-user instance limit.",
+  "design_ref": "DESIGN.md §5 C13", "note": "As C05; OS-level release is measured, not proved.",
+  "technique": "Lean 4 progress + stability over the protocol model; regenerated skeleton; fd / goroutine accounting on the running code",
+ },
+ "C14": {
+  "text": "Theorems: a channel of any capacity is FIFO along every enabled sequence of sends/receives/rendezvous "
+          "(received ++ buffered = sent); with no consumer exactly `cap` sends succeed; the emitted sequence is a function of "
+          "records and state only (no channel argument); regenerated facts: NewBufferedWatcher(sz) makes chan Event of "
+          "capacity sz, NewWatcher of defaultBufferSize (0/0/0/50 per backend), Errors unbuffered; no package-level variable is "
+          "written; every inotify syscall site passes w.fd. Tie D: 1-8 genuine Watchers with different buffers over one "
+          "directory, churn on the others, sequences compared; cap() read; absorb test.",
+  "design_ref": "DESIGN.md §5 C14", "note": "Trusted: Lean kernel; translator facts; kernel isolation between instances is measured.",
+  "technique": "Lean 4 proofs (channel FIFO by induction) + regenerated capacity/global-state facts + multi-Watcher differential scenarios",
+ },
  "C11": {
   "text": "Theorems: the ten ring slots are exactly the last ten stored (cookie, old name) pairs (window invariant, by "
           "induction over any number of stores); a lookup finds the pair of its own move if it is among the last ten and "
